@@ -4,7 +4,7 @@
    code used (H3: m * tau_k <= rho * v_fav with rho = m^(1/(k+1)) (1+1e-12)). *)
 From Coq Require Import QArith List Lia.
 Import ListNotations.
-From SCK Require Import Distortion.
+From SCK Require Import ElicitM ElicitRules ElicitFinal Distortion KarvFinal.
 Local Open Scope Q_scope.
 
 (* k-ARV: I agents, J alternatives, v true and vt simulated values, fav i agent i's favourite, tk i its last
@@ -35,3 +35,27 @@ Theorem C16_tsf_distortion : forall (I : list nat) (v vt : nat -> nat -> Q) (fav
   sumQ (fun i => v i (X i)) I <= 2 * rho * (sumQ (fun i => v i (Y i)) I + n * eps).
 Proof. exact tsf_distortion. Qed.
 Print Assumptions C16_tsf_distortion.
+
+(* END TO END for k-ARV: P a strict complete profile, V a consistent non-negative valuation behind a truthful
+   memoising elicitor, tau the thresholds the code computed with the stated numeric facts (rho >= 1, non-negative,
+   non-increasing, consecutive ratio <= rho, m tau_k <= rho v_fav: evaluated per explored case on the actual floats by
+   DistCheck.chk_karv_num). vt = the simulated profile RETURNED BY RUNNING the rule's query program. Then for every
+   alternative x and every alternative y maximising the simulated welfare (what KARV.scf reports):
+   SW(x) <= 2 rho SW(y). *)
+Theorem C16_karv_end_to_end : forall fixer V P k tau rho,
+  let n := length P in let m := length (nth 0 P []) in
+  (1 <= m)%nat -> (1 <= k)%nat ->
+  (forall row, In row P -> length row = m /\ strict_rowb row = true) ->
+  (forall i j j', (i < n)%nat -> (j < m)%nat -> (j' < m)%nat -> (nth j (nth i P []) 0 <= nth j' (nth i P []) 0)%Z -> Vat fixer V i j' <= Vat fixer V i j) ->
+  (forall i j, (i < n)%nat -> (j < m)%nat -> 0 <= Vat fixer V i j) ->
+  1 <= rho ->
+  (forall i l, (i < n)%nat -> (1 <= l)%nat -> (l <= k)%nat -> 0 <= tauof tau i l) ->
+  (forall i l, (i < n)%nat -> (1 <= l)%nat -> (l < k)%nat -> tauof tau i (S l) <= tauof tau i l) ->
+  (forall i, (i < n)%nat -> Vat fixer V i (favi P i) <= rho * tauof tau i 1) ->
+  (forall i l, (i < n)%nat -> (1 <= l)%nat -> (l < k)%nat -> tauof tau i l <= rho * tauof tau i (S l)) ->
+  (forall i, (i < n)%nat -> inject_Z (Z.of_nat m) * tauof tau i k <= rho * Vat fixer V i (favi P i)) ->
+  forall x y, (x < m)%nat -> (y < m)%nat ->
+  (forall j, (j < m)%nat -> sumQ (fun i => vt fixer V P k tau i j) (seq 0 n) <= sumQ (fun i => vt fixer V P k tau i y) (seq 0 n)) ->
+  sumQ (fun i => Vat fixer V i x) (seq 0 n) <= 2 * rho * sumQ (fun i => Vat fixer V i y) (seq 0 n).
+Proof. exact karv_end_to_end. Qed.
+Print Assumptions C16_karv_end_to_end.
